@@ -148,7 +148,7 @@ def check_injection(ctx, position, s):
                   f'read back skeleton {got!r}, intended {want!r}; bytes {b!r}', cls)
 
 
-def check_joinsplit(ctx, s):
+def check_joinsplit(ctx, s, pads=None):
     """from_parts then parts: same name, same params, value text that decodes to the same value"""
     from icalendar.parser import Contentline, Parameters
     from icalendar.prop import vText, vUri
@@ -178,6 +178,21 @@ def check_joinsplit(ctx, s):
         except ValueError as e:
             ctx.violation('joinsplit', {'kind': kind, 's': s}, f'parts() failed: {e}')
             continue
+        # the joined line as it goes over the wire: folded by to_ical(), unfolded by from_ical(); wherever the fold
+        # falls (the padding sweeps it across the hostile characters) the same line comes back
+        if pads is None:
+            pads = range(30, 80) if ('\r' in s and len(s) <= 3) else ctx.rng.sample(range(30, 80), 3)
+        for k in [0] + list(pads):
+            try:
+                clp = Contentline.from_parts('X-NAME', p, type(val)('p' * k + s)) if k else cl
+                wire = clp.to_ical()
+            except (AssertionError, UnicodeEncodeError, ValueError):
+                continue
+            back = Contentline.from_ical(wire)
+            if back != clp:
+                ctx.violation('joinsplit-wire', {'kind': kind, 's': s, 'pad': k},
+                              f'line {str(clp)!r} is sent as {wire!r} and read back as {str(back)!r}')
+                break
         if n != 'X-NAME' or got_of(ps) != canon({'K': 'a b', 'L': ['x', 'y,z']}):
             ctx.violation('joinsplit', {'kind': kind, 's': s}, f'name/params changed: {n!r} {got_of(ps)!r}')
         if kind == 'uri':
@@ -239,7 +254,7 @@ def replay(ctx, data):
     if 'position' in inp:
         check_injection(ctx, inp['position'], inp['s'])
     else:
-        check_joinsplit(ctx, inp['s'])
+        check_joinsplit(ctx, inp['s'], [inp['pad']] if 'pad' in inp else None)
     for v in ctx.violations:
         print('REPRODUCED', v['kind'], v['detail'][:500], 'class=', v['cls'])
     if not ctx.violations:
